@@ -128,6 +128,14 @@ func fileFixtures(r *rand.Rand, thorough bool) []*fileFixture {
 		st4 := store.New()
 		root4, _ := handFile(st4, [][]byte{[]byte("hello "), []byte("world"), {}}, handFileOpts{Width: 3, PBLeaves: false})
 		out = append(out, mkFixture("hand-trailingempty-raw", st4, root4, content))
+		// interior nodes that hold nothing but empty chunks, at the head of the file (declared size 0,
+		// yet with children of their own) and in the middle
+		st5 := store.New()
+		root5, _ := handFile(st5, [][]byte{{}, {}, []byte("hello"), []byte(" wor"), []byte("ld")}, handFileOpts{Width: 2, PBLeaves: false})
+		out = append(out, mkFixture("hand-leadingempty-interior-raw", st5, root5, content))
+		st6 := store.New()
+		root6, _ := handFile(st6, [][]byte{{}, {}, []byte("hel"), []byte("lo "), {}, {}, []byte("world")}, handFileOpts{Width: 2, PBLeaves: true, LeafType: 2})
+		out = append(out, mkFixture("hand-emptyinterior-pb", st6, root6, content))
 	}
 	if thorough {
 		build("default-width-349", 174, "size-1", 349, "rand")
@@ -357,6 +365,53 @@ func runHistory(c *mon.Case, f *fileFixture, nReaders, steps int) {
 			var err error
 			var got []byte
 			want := 1 + r.Intn(int(l)+3)
+			if r.Intn(8) == 0 {
+				// io.Copy into a destination that fails part-way: the bytes it accepted are the content
+				// from the old position on, and afterwards the reader is where it says it is
+				room := r.Intn(int(l) + 2)
+				fw := &failingWriter{room: room}
+				step := fmt.Sprintf("r%d.io.Copy(writer failing after %d bytes)", ri, room)
+				var cerr error
+				if !c.Guard(step, func() { _, cerr = io.Copy(fw, rd) }) {
+					return
+				}
+				var exp []byte
+				if m.pos < l {
+					exp = f.Content[m.pos:]
+				}
+				c.Count("steps", 1)
+				c.Count("failed_copies", 1)
+				trace = append(trace, fmt.Sprintf("%s@%d=(%d,%v)", step, m.pos, len(fw.got), cerr))
+				if len(fw.got) > len(exp) || !bytes.Equal(fw.got, exp[:len(fw.got)]) {
+					fail("C04|macro-read", "%s at position %d delivered %d bytes that are not the content there", step, m.pos, len(fw.got))
+					return
+				}
+				// the reader is used on without repositioning it: what it returns next must be the content
+				// just before the position it reports afterwards (bytes read ahead of a failed write are
+				// gone, so where exactly it stands is its own business - but it has to know)
+				nb := make([]byte, 1+r.Intn(9))
+				var nn int
+				var nerr error
+				if !c.Guard("Read after a failed copy", func() { nn, nerr = rd.Read(nb) }) {
+					return
+				}
+				var q int64
+				var qerr error
+				if !c.Guard("Seek(0,Current) after a failed copy", func() { q, qerr = rd.Seek(0, io.SeekCurrent) }) {
+					return
+				}
+				trace = append(trace, fmt.Sprintf("r%d.Read(%d)=(%d,%v) ; r%d.Seek(0,1)=(%d,%v)", ri, len(nb), nn, nerr, ri, q, qerr))
+				if qerr != nil || (nerr != nil && nerr != io.EOF) || q-int64(nn) < m.pos+int64(len(fw.got)) || (q > l && q > m.pos) {
+					fail("C04|position-after-copy", "%s from position %d (%d bytes accepted), then Read = (%d, %v): the reader reports position (%d, %v)", step, m.pos, len(fw.got), nn, nerr, q, qerr)
+					return
+				}
+				if nn > 0 && (q > l || !bytes.Equal(nb[:nn], f.Content[q-int64(nn):q])) {
+					fail("C04|read-bytes", "%s from position %d, then Read returned %x and the reader reports position %d: the content before that position is %x", step, m.pos, nb[:nn], q, f.Content[max64(0, min64(l, q)-int64(nn)):min64(l, q)])
+					return
+				}
+				m.pos = q
+				continue
+			}
 			mode := r.Intn(3)
 			full := mode == 0
 			step := fmt.Sprintf("r%d.ReadFull(%d)", ri, want)
@@ -414,6 +469,24 @@ func runHistory(c *mon.Case, f *fileFixture, nReaders, steps int) {
 	}
 	c.Sample(map[string]any{"fixture": f.Name, "len": l, "readers": nReaders, "history": trace})
 	c.Sig(fmt.Sprintf("%s|r%d|%s", f.Name, nReaders, strings.Join(sig, "")), hasSeek && hasRead)
+}
+
+// failingWriter accepts room bytes and then fails.
+type failingWriter struct {
+	room int
+	got  []byte
+}
+
+func (w *failingWriter) Write(p []byte) (int, error) {
+	if len(p) <= w.room {
+		w.got = append(w.got, p...)
+		w.room -= len(p)
+		return len(p), nil
+	}
+	n := w.room
+	w.got = append(w.got, p[:n]...)
+	w.room = 0
+	return n, fmt.Errorf("verif: destination full")
 }
 
 func checkRead(fail func(key, format string, args ...any), f *fileFixture, m *rsModel, k, n int, err error, buf []byte) bool {
@@ -489,4 +562,11 @@ func TestC04(t *testing.T) {
 			})
 		}
 	}
+}
+
+func max64(a, b int64) int64 {
+	if a > b {
+		return a
+	}
+	return b
 }
